@@ -284,13 +284,28 @@ def run(ctx):
     for n, how in ((100, "x"), (300, "x"), (300, "w"), (700, "x")) + (() if quick else ((2000, "x"), (2000, "w"))):
         cases.append(c02eng.long_word_case(r, n, how))
         tags.append({"long_word": (n, how)})
+    # exclusion words the parser cannot read: one item more than MAX_RANGES between the brackets; unbalanced brackets
+    for n, how in ((10241, "x"), (10241, "w"), (12000, "x")) if not quick else ((10241, "x"), (10241, "w")):
+        cases.append(c02eng.long_word_case(r, n, how))
+        tags.append({"long_word": (n, how)})
+    for text, how in ((b"foo[1-3", "x"), (b"foo[1-3", "w"), (b"foo1-3]", "x"), (b"foo[3-1]", "x")):
+        cases.append(c02eng.raw_exclusion_case(r, text, how))
+        tags.append({"raw_exclusion": text.decode()})
     ctx.log("args level: %d command lines (%d corpus, %d orders of %d small cases, %d exclusion files)" %
             (len(cases), ncorpus, sum(1 for t in tags if "perm_of" in t), nperm_base, len(bigs)))
 
     paths = [R.materialise(c) for c in cases]
     tables, doubt = R.regex_tables(cases)
     mlines = [c02eng.model_line(c, p, "fixed", t) for c, p, t in zip(cases, paths, tables)]
-    mres = ctx.run_lines([R.model], mlines, env={"OCAMLRUNPARAM": "l=4G"}, crash_tag="MODEL-CRASH", timeout_per_case=60.0)
+    # exclusion words of a thousand items and more are judged by S only: the model's list operations are quadratic in them
+    big = [("long_word" in tg and tg["long_word"][0] > 800) for tg in tags]
+    sub = ctx.run_lines([R.model], [ml for ml, b in zip(mlines, big) if not b], env={"OCAMLRUNPARAM": "l=4G"}, crash_tag="MODEL-CRASH", timeout_per_case=120.0)
+    mres, k = [], 0
+    for b in big:
+        if b:
+            mres.append(None)
+        else:
+            mres.append(sub[k]); k += 1
     dist = {"Q": 0, "contact": 0, "exec": 0, "errx": 0, "empty": 0, "hang": 0, "regex_doubt_skipped": 0, "outside_domain": 0,
             "with_duplicates": 0, "with_two_brackets": 0, "with_regex": 0, "with_files": 0}
     bad, samples, perm_groups = 0, [], {}
@@ -305,7 +320,7 @@ def run(ctx):
             ok, hs = tb[pat]
             return None if not ok else (h in hs)
         exp = c02eng.spec(c, lambda pat, h: c02eng.py_match(pat, h))
-        mcan, indom = canon_model(mo)
+        mcan, indom = canon_model(mo) if mo is not None else (None, True)
         mode = pick_mode(r, exp)
         obs = R.run_real(c, p, mode)
         if obs[0] == "TRUNC":
@@ -340,7 +355,7 @@ def run(ctx):
                    "the hosts pdsh %s differ from: targets minus every excluded name, regex filters applied, order and multiplicity kept" % (
                        {"Q": "lists with -Q", "contact": "tries to contact", "exec": "runs the command on"}[mode])
             ctx.violation("input", case=rec, expected=show(exp), observed=show(obs), engine="args", detail=what + "; " + desc)
-        elif not same(mcan, obs):
+        elif mcan is not None and not same(mcan, obs):
             bad += 1
             ctx.violation("no-failing-input-found", case=rec, expected=show(mcan), observed=show(obs), engine="args",
                           correspondence="args: final target list of pdsh = Exclude.run fixed (extracted)", detail="model and implementation differ; " + desc)
